@@ -1745,11 +1745,21 @@ fn lower_expr_with_args(
                                 return None;
                             }
                         };
-                        Some(ast::Expr::EProj {
+                        let proj = ast::Expr::EProj {
                             tuple: Box::new(lhs),
                             index,
                             astptr,
-                        })
+                        };
+                        // `(t.0)(5)`: the projection is what the arguments are applied to.
+                        if trailing_args.is_empty() {
+                            Some(proj)
+                        } else {
+                            Some(ast::Expr::ECall {
+                                func: Box::new(proj),
+                                args: trailing_args,
+                                astptr,
+                            })
+                        }
                     }
                     cst::Expr::IdentExpr(ident_expr) => {
                         let Some(token) = ident_expr.path().and_then(|p| p.ident_tokens().last())
@@ -1760,6 +1770,16 @@ fn lower_expr_with_args(
                             );
                             return None;
                         };
+                        if ident_expr
+                            .path()
+                            .is_some_and(|p| p.ident_tokens().count() > 1)
+                        {
+                            ctx.push_error(
+                                Some(ident_expr.syntax().text_range()),
+                                "A field or method name after `.` cannot be qualified",
+                            );
+                            return None;
+                        }
                         let field = ast::AstIdent(token.to_string());
                         let field_expr = ast::Expr::EField {
                             expr: Box::new(lhs),
@@ -1792,7 +1812,7 @@ fn lower_expr_with_args(
                             );
                             return None;
                         };
-                        Some(ast::Expr::EProj {
+                        let proj = ast::Expr::EProj {
                             tuple: Box::new(ast::Expr::EProj {
                                 tuple: Box::new(lhs),
                                 index: outer,
@@ -1800,7 +1820,16 @@ fn lower_expr_with_args(
                             }),
                             index: inner,
                             astptr,
-                        })
+                        };
+                        if trailing_args.is_empty() {
+                            Some(proj)
+                        } else {
+                            Some(ast::Expr::ECall {
+                                func: Box::new(proj),
+                                args: trailing_args,
+                                astptr,
+                            })
+                        }
                     }
                     other => {
                         ctx.push_error(
